@@ -6,4 +6,4 @@ Definition z_ltb := Z.ltb.
 Definition n_of_nat := N.of_nat.   (* keeps type N in the extracted module: ocaml/conv.ml.inc mentions it *)
 
 Extraction Language OCaml.
-Extraction "../ocaml/gen/Ownership.ml" w_init step conts next dead zdead held total_len total_zeros z_ltb n_of_nat.
+Extraction "../ocaml/gen/Ownership.ml" w_init step sstep conts next dead zdead held total_len total_zeros z_ltb n_of_nat.
